@@ -67,6 +67,7 @@ def _job_worker(job):
            "evaluations": 0, "nontrivial": 0, "mismatches": [], "features": {},
            "samples": [], "error": None, "generated": 0, "tlc_distinct": 0}
     seen = set()
+    findings = load_known_findings().get("findings", [])
     run = TLCRun(scn["name"] + "." + job["mode"], job["root"], job["defs"], job["cfg"],
                  mode=job["mode"], sim_num=job.get("sim_num", 0),
                  sim_depth=job.get("sim_depth", 8), seed=job.get("seed", 0),
@@ -91,8 +92,13 @@ def _job_worker(job):
             for f in res.get("features", ()):
                 out["features"][f] = out["features"].get(f, 0) + 1
             for m in res["mismatches"]:
-                if len(out["mismatches"]) < 40:
-                    out["mismatches"].append({"mismatch": m.to_dict(), "record": rec,
+                md = m.to_dict()
+                is_known = match_finding(findings, md) is not None
+                n_known = sum(1 for x in out["mismatches"] if x.get("known"))
+                n_new = len(out["mismatches"]) - n_known
+                # known findings must never crowd out a new violation
+                if (is_known and n_known < 25) or (not is_known and n_new < 60):
+                    out["mismatches"].append({"mismatch": md, "record": rec, "known": is_known,
                                               "job": _job_essentials(job)})
                 else:
                     out["mismatches_dropped"] = out.get("mismatches_dropped", 0) + 1
